@@ -61,7 +61,10 @@ func run(c *hlib.Ctx) {
 		caseSTLRound(c, i)
 		caseCSV(c, i)
 		caseOFF(c, i)
+		caseOFFPoly(c, i)
 		caseOBJ(c, i)
+		caseThreeMF(c, i)
+		caseOBJFile(c, i)
 	}
 }
 
